@@ -141,6 +141,8 @@ def r4(ctx):
     rl = bl.return_term()
     pb, pr, pc, pN, pW = (Sym(p) for p in loc.params)
     ok = isinstance(rl, Comp) and not rl.conds and rl.iter == Range(0, tm.add(pW, tm.neg(pb)))
+    ctx.check(isinstance(rl, Comp) and rl.kind == "list", loc, "the position list is a list (it is traversed more than once by the (row, column) form; "
+              "a generator would be exhausted after the first traversal)", role="positions:reusable", expected="a list", found=getattr(rl, "kind", type(rl).__name__))
     if ok:
         k = rl.var
         ok = rl.elt == Tup([tm.add(tm.mul(k, pN), pr), tm.add(tm.add(tm.mul(pb, pN), tm.mul(k, pN)), pc)])
